@@ -3,6 +3,7 @@ import Proofs.Lemmas.AliasPref
 import Proofs.Lemmas.AliasClass
 import Proofs.Lemmas.AliasFail
 import Proofs.Lemmas.AliasCtor
+import Proofs.Lemmas.AliasLabel
 /-
 C18 — An alias is indistinguishable from the variable it names.
 
@@ -964,6 +965,120 @@ theorem ctor_reencode {β : Type} [DecidableEq β] (f : α → β) (hf : ∀ x y
   simp only [Function.comp]
   rw [resolve_reMap f hf]
 
+/-! ## 10. Labels that are spelt like names
+
+`model[name, label]`, `model[name, a:b:c]`: the mixin resolves the FIRST component of the key and nothing else.  In
+§2 the rest of the key is a value of the opaque type `P`, so `alias_transparent_step` already says that the mixin
+cannot look at it — but there a label cannot *be* a name.  Here the span is a list of names (`labelOps span`,
+`FsicModel/AliasLabel.lean`): a label may be an alias, a variable, the target of an alias, anything.  The statements
+below hold for EVERY label and every slice bound — no hypothesis keeps them apart from `keys a`. -/
+
+/-- **The label is not resolved** — whatever it is spelt like (`ix` may mention aliases, variables, targets): a
+    label-indexed read or write through any name is the plain container's operation on `resolve name` with the
+    SAME index. -/
+theorem label_not_resolved {β : Type} (span : List α) {a : AMap α} (hc : chained a = false)
+    {s : Store α (List β) (LPay α β)} (hinv : Inv a s) (n : α) (ix : LIx α) :
+    aliased (labelOps span) a s (.getAt n (.ix ix)) = base (labelOps span) s (.getAt (resolve a n) (.ix ix)) ∧
+    ∀ p, aliased (labelOps span) a s (.setAt n (.ix ix) p) = base (labelOps span) s (.setAt (resolve a n) (.ix ix) p) :=
+  ⟨alias_transparent_step (labelOps span) hc hinv (.getAt n (.ix ix)),
+   fun p => alias_transparent_step (labelOps span) hc hinv (.setAt n (.ix ix) p)⟩
+
+/-- … in particular for a label that IS an alias (`l ∈ keys a`, pointing somewhere else): the access goes to the
+    period labelled `l`, and differs from nothing the plain container does with `l`. -/
+theorem alias_named_label_not_resolved {β : Type} (span : List α) {a : AMap α} (hc : chained a = false)
+    {s : Store α (List β) (LPay α β)} (hinv : Inv a s) (n l : α) (_hl : l ∈ keys a) (_hne : resolve a l ≠ l) :
+    aliased (labelOps span) a s (.getAt n (.ix (.label l))) =
+      base (labelOps span) s (.getAt (resolve a n) (.ix (.label l))) :=
+  (label_not_resolved span hc hinv n (.label l)).1
+
+/-- **Absolutely**: `m[name, l]` is element `span.index(l)` of the series stored under `resolve name`, and
+    `m[name, l] = c` changes exactly that cell of exactly that series; a label that is not in the span is `KeyError`
+    and changes nothing — even when `resolve l` is in the span. -/
+theorem label_access_absolute {β : Type} (span : List α) {a : AMap α} (hc : chained a = false)
+    {s : Store α (List β) (LPay α β)} (hinv : Inv a s) (n l : α) {v : List β}
+    (hv : lookup s.vars (resolve a n) = some v) :
+    (∀ i, locate span l = some i → ∀ (hi : i < v.length),
+      span[i]? = some l ∧
+      aliased (labelOps span) a s (.getAt n (.ix (.label l))) = (s, .value (.scalar v[i])) ∧
+      ∀ c, aliased (labelOps span) a s (.setAt n (.ix (.label l)) (.scalar c)) =
+        ({ s with vars := update s.vars (resolve a n) (v.set i c) }, .done)) ∧
+    (l ∉ span →
+      aliased (labelOps span) a s (.getAt n (.ix (.label l))) = (s, .err .keyError) ∧
+      ∀ p, aliased (labelOps span) a s (.setAt n (.ix (.label l)) p) = (s, .err .keyError)) := by
+  obtain ⟨hg, hs⟩ := label_not_resolved span hc hinv n (.label l)
+  constructor
+  · intro i hl hi
+    refine ⟨(locate_spec hl).1, ?_, ?_⟩
+    · rw [hg]; exact base_getAt_label span s hv hl hi
+    · intro c; rw [hs]; exact base_setAt_label span s c hv hl hi
+  · intro hl
+    have hn := locate_none_iff.mpr hl
+    refine ⟨?_, ?_⟩
+    · rw [hg]; exact base_getAt_label_missing span s hv hn
+    · intro p; rw [hs]; exact base_setAt_label_missing span s p hv hn
+
+/-- Slices: both bounds are located as they are spelt (a missing bound is the first / last label), the interval is
+    closed, a scalar goes into exactly the selected cells of exactly the series stored under `resolve name`. -/
+theorem label_slice_absolute {β : Type} (span : List α) {a : AMap α} (hc : chained a = false)
+    {s : Store α (List β) (LPay α β)} (hinv : Inv a s) (n : α) (lo hi : Option α) {st : Nat} (hst : st ≠ 0)
+    {v : List β} (hv : lookup s.vars (resolve a n) = some v) {i j : Nat}
+    (hlo : locStart span lo = some i) (hhi : locStop span hi = some j) :
+    aliased (labelOps span) a s (.getAt n (.ix (.slice lo hi st))) =
+      (s, .value (.list ((slicePositions i j st).filterMap fun k => v[k]?))) ∧
+    ∀ c, aliased (labelOps span) a s (.setAt n (.ix (.slice lo hi st)) (.scalar c)) =
+      ({ s with vars := update s.vars (resolve a n) (setAll v (slicePositions i j st) c) }, .done) := by
+  obtain ⟨hg, hs⟩ := label_not_resolved span hc hinv n (.slice lo hi st)
+  refine ⟨?_, ?_⟩
+  · rw [hg]; exact base_getAt_slice span s lo hi hv hlo hhi hst
+  · intro c; rw [hs]; exact base_setAt_slice span s lo hi c hv hlo hhi hst
+
+/-- What a mixin that resolves every `str` of the key would do instead: the access lands on the label's TARGET. -/
+theorem resolving_labels_reads_target {β : Type} (span : List α) (a : AMap α) (s : Store α (List β) (LPay α β))
+    (n : α) (ix : LIx α) :
+    aliasedAll span a s (.getAt n (.ix ix)) = aliased (labelOps span) a s (.getAt n (.ix (ix.map (resolve a)))) ∧
+    ∀ p, aliasedAll span a s (.setAt n (.ix ix) p) =
+      aliased (labelOps span) a s (.setAt n (.ix (ix.map (resolve a))) p) :=
+  ⟨rfl, fun _ => rfl⟩
+
+/-- **… and that is a different container** whenever the span has a label `l` whose target `resolve a l` is another
+    period holding another value (read: another result; write: another cell), or is no period at all (`KeyError`
+    where the code succeeds). -/
+theorem resolving_labels_differs {β : Type} (span : List α) {a : AMap α} (hc : chained a = false)
+    {s : Store α (List β) (LPay α β)} (hinv : Inv a s) (n l : α) {v : List β}
+    (hv : lookup s.vars (resolve a n) = some v) {i : Nat} (hl : locate span l = some i) (hi : i < v.length) :
+    (∀ j (hj : j < v.length), locate span (resolve a l) = some j → v[i] ≠ v[j] →
+      aliasedAll span a s (.getAt n (.ix (.label l))) ≠ aliased (labelOps span) a s (.getAt n (.ix (.label l)))) ∧
+    (resolve a l ∉ span →
+      aliasedAll span a s (.getAt n (.ix (.label l))) ≠ aliased (labelOps span) a s (.getAt n (.ix (.label l))) ∧
+      ∀ c, aliasedAll span a s (.setAt n (.ix (.label l)) (.scalar c)) ≠
+        aliased (labelOps span) a s (.setAt n (.ix (.label l)) (.scalar c))) := by
+  have habs := (label_access_absolute span hc hinv n l hv).1 i hl hi
+  constructor
+  · intro j hj hlj hne h
+    rw [(resolving_labels_reads_target span a s n (.label l)).1] at h
+    have h2 := ((label_access_absolute span hc hinv n (resolve a l) hv).1 j hlj hj).2.1
+    simp only [LIx.map] at h
+    rw [h2, habs.2.1] at h
+    injection h with _ h
+    injection h with h
+    injection h with h
+    exact hne h.symm
+  · intro hns
+    have hk := (label_access_absolute span hc hinv n (resolve a l) hv).2 hns
+    refine ⟨?_, ?_⟩
+    · intro h
+      rw [(resolving_labels_reads_target span a s n (.label l)).1] at h
+      simp only [LIx.map] at h
+      rw [hk.1, habs.2.1] at h
+      injection h with _ h
+      cases h
+    · intro c h
+      rw [(resolving_labels_reads_target span a s n (.label l)).2] at h
+      simp only [LIx.map] at h
+      rw [hk.2, habs.2.2 c] at h
+      injection h with _ h
+      cases h
+
 end Fsic.C18
 
 /-! ## Concrete instances that meet the hypotheses used above -/
@@ -1141,5 +1256,61 @@ example : ∀ x y, exCode x = exCode y → x = y := by intro x y h; unfold exCod
 example : instanceAliases (reMap exCode [(1, 0), (2, 1)]) = .returned [(102, 100), (104, 100)] ∧
     (instanceAliases [(1, 0), (2, 1)]).map (reMap exCode) = .returned [(102, 100), (104, 100)] ∧
     resolve (reMap exCode [(1, 0), (2, 0)]) (exCode 2) = exCode 0 := by decide
+
+/-! ### §10: a span whose labels are spelt like names -/
+
+/-- `ALIASES = {'GDP': 'Y', 'cons': 'C', 'k1': 'zzz'}`; the span is `['GDP', 'Y', 'C', 'p3', 'k1']`: an alias, its
+    target (a variable), another variable, a plain label, an alias of an undefined name. -/
+def exLabMap : AMap String := [("GDP", "Y"), ("cons", "C"), ("k1", "zzz")]
+def exLabSpan : List String := ["GDP", "Y", "C", "p3", "k1"]
+def exLabStore : Store String (List Int) (LPay String Int) :=
+  ⟨false, [("Y", [10, 11, 12, 13, 14]), ("C", [20, 21, 22, 23, 24])], []⟩
+
+-- hypotheses of `label_not_resolved` / `label_access_absolute` / `resolving_labels_differs`
+example : chained exLabMap = false ∧ Inv exLabMap exLabStore ∧ "GDP" ∈ keys exLabMap ∧ resolve exLabMap "GDP" ≠ "GDP" ∧
+    lookup exLabStore.vars (resolve exLabMap "GDP") = some [10, 11, 12, 13, 14] ∧ locate exLabSpan "GDP" = some 0 ∧
+    locate exLabSpan (resolve exLabMap "GDP") = some 1 ∧ resolve exLabMap "k1" ∉ exLabSpan := by
+  refine ⟨by decide, ⟨?_, ?_⟩, by decide, by decide, by decide, by decide, by decide, by decide⟩ <;>
+    (intro x hx; simp [Store.attrNames, exLabStore] at hx)
+
+-- the code: `m['GDP', 'GDP']` is element 0 of Y, `m['cons', 'GDP']` element 0 of C, `m['Y', 'k1']` element 4 of Y
+example : (aliased (labelOps exLabSpan) exLabMap exLabStore (.getAt "GDP" (.ix (.label "GDP")))).2 = .value (.scalar 10) ∧
+    (aliased (labelOps exLabSpan) exLabMap exLabStore (.getAt "cons" (.ix (.label "GDP")))).2 = .value (.scalar 20) ∧
+    (aliased (labelOps exLabSpan) exLabMap exLabStore (.getAt "Y" (.ix (.label "k1")))).2 = .value (.scalar 14) ∧
+    (aliased (labelOps exLabSpan) exLabMap exLabStore (.getAt "GDP" (.ix (.slice (some "GDP") (some "C") 1)))).2 =
+      .value (.list [10, 11, 12]) ∧
+    (aliased (labelOps exLabSpan) exLabMap exLabStore (.getAt "GDP" (.ix (.slice none (some "k1") 2)))).2 =
+      .value (.list [10, 12, 14]) ∧
+    (aliased (labelOps exLabSpan) exLabMap exLabStore (.setAt "GDP" (.ix (.label "GDP")) (.scalar 99))).1.vars =
+      [("Y", [99, 11, 12, 13, 14]), ("C", [20, 21, 22, 23, 24])] := by decide
+
+/-- **Negation-style witness**: the mixin that also resolves labels reads element 1 (the period labelled `Y`) where
+    the code reads element 0, raises `KeyError` for the label `k1` (its target `zzz` is no period), selects another
+    slice and writes another cell. -/
+theorem resolving_labels_differs_at_witness :
+    (aliasedAll exLabSpan exLabMap exLabStore (.getAt "GDP" (.ix (.label "GDP")))).2 = .value (.scalar 11) ∧
+    (aliased (labelOps exLabSpan) exLabMap exLabStore (.getAt "GDP" (.ix (.label "GDP")))).2 = .value (.scalar 10) ∧
+    (aliasedAll exLabSpan exLabMap exLabStore (.getAt "Y" (.ix (.label "k1")))).2 = .err .keyError ∧
+    (aliased (labelOps exLabSpan) exLabMap exLabStore (.getAt "Y" (.ix (.label "k1")))).2 = .value (.scalar 14) ∧
+    (aliasedAll exLabSpan exLabMap exLabStore (.getAt "C" (.ix (.slice (some "GDP") (some "C") 1)))).2 =
+      .value (.list [21, 22]) ∧
+    (aliased (labelOps exLabSpan) exLabMap exLabStore (.getAt "C" (.ix (.slice (some "GDP") (some "C") 1)))).2 =
+      .value (.list [20, 21, 22]) ∧
+    (aliasedAll exLabSpan exLabMap exLabStore (.setAt "cons" (.ix (.label "GDP")) (.scalar 99))).1.vars =
+      [("Y", [10, 11, 12, 13, 14]), ("C", [20, 99, 22, 23, 24])] ∧
+    (aliased (labelOps exLabSpan) exLabMap exLabStore (.setAt "cons" (.ix (.label "GDP")) (.scalar 99))).1.vars =
+      [("Y", [10, 11, 12, 13, 14]), ("C", [99, 21, 22, 23, 24])] ∧
+    aliasedAll exLabSpan exLabMap exLabStore ≠ aliased (labelOps exLabSpan) exLabMap exLabStore := by
+  refine ⟨by decide, by decide, by decide, by decide, by decide, by decide, by decide, by decide, ?_⟩
+  intro h
+  have := congrArg (fun f => (f (.getAt "GDP" (.ix (.label "GDP")))).2) h
+  revert this
+  decide
+
+-- labels that name nothing behave as before, and a label outside the span is KeyError on both
+example : (aliasedAll exLabSpan exLabMap exLabStore (.getAt "GDP" (.ix (.label "p3")))).2 =
+      (aliased (labelOps exLabSpan) exLabMap exLabStore (.getAt "GDP" (.ix (.label "p3")))).2 ∧
+    (aliased (labelOps exLabSpan) exLabMap exLabStore (.getAt "GDP" (.ix (.label "cons")))).2 = .err .keyError := by decide
+
 
 end Fsic.C18
